@@ -10,6 +10,7 @@
 package main
 
 import (
+	"encoding/json"
 	"fmt"
 	"os"
 
@@ -23,6 +24,8 @@ type histResult struct {
 	fails []monFail
 	steps []string
 	w     *World
+	seed  int64
+	float int64
 }
 
 func runHistory(prop string, seed int64, prm [4]uint64, float int64, n int, g *Gen, script []Op, rep *lib.Report, hid string) histResult {
@@ -30,7 +33,7 @@ func runHistory(prop string, seed int64, prm [4]uint64, float int64, n int, g *G
 	mon := NewMonitor(w)
 	prev := w.snapshot()
 	var res histResult
-	res.w = w
+	res.w, res.seed, res.float = w, seed, float
 	changed := 0
 	for i := 0; i < n; i++ {
 		var op Op
@@ -75,6 +78,10 @@ func main() {
 		fmt.Println("types.OutgoingTxBatchSize changed:", crosschaintypes.OutgoingTxBatchSize)
 		os.Exit(3)
 	}
+	if os.Getenv("VERIF_MODE") == "replay" {
+		replay(prop)
+		return
+	}
 	seed := lib.Seed()
 	if prop == "C06" {
 		seed += 1000003
@@ -97,7 +104,8 @@ func main() {
 	record := func(h histResult, hid string) {
 		items = append(items, coqCase(h.w, h.steps))
 		for _, f := range h.fails {
-			rep.Fail(lib.Failure{Kind: "monitor", What: f.what, Sig: f.sig, Replay: map[string]interface{}{"history": hid, "params": h.w.params0, "ops": h.ops}})
+			rep.Fail(lib.Failure{Kind: "monitor", What: f.what, Sig: f.sig, Replay: map[string]interface{}{"history": hid, "prop": prop, "chain_seed": h.seed,
+				"module_float": h.float, "params": h.w.params0, "ops": h.ops}})
 		}
 		if len(h.ops) > 0 {
 			rep.Sample(map[string]interface{}{"history": hid, "first_ops": h.ops[:min(6, len(h.ops))]})
@@ -189,4 +197,48 @@ func scripted(prop string) []script {
 	)
 	out = append(out, script{paramSets[0], 100000, big})
 	return out
+}
+
+// replay re-runs the history of a replay file (written by bin/check) on the real application and prints,
+// step by step, what was accepted and what the monitor says; exit status 1 if the monitor fails again.
+func replay(defaultProp string) {
+	raw, err := os.ReadFile(os.Getenv("VERIF_REPLAY"))
+	if err != nil {
+		fmt.Println("cannot read replay file:", err)
+		os.Exit(2)
+	}
+	var file struct {
+		Replay struct {
+			Prop   string    `json:"prop"`
+			Seed   int64     `json:"chain_seed"`
+			Float  int64     `json:"module_float"`
+			Params [4]uint64 `json:"params"`
+			Ops    []Op      `json:"ops"`
+		} `json:"replay"`
+	}
+	if err := json.Unmarshal(raw, &file); err != nil {
+		fmt.Println("cannot parse replay file:", err)
+		os.Exit(2)
+	}
+	r := file.Replay
+	prop := r.Prop
+	if prop == "" {
+		prop = defaultProp
+	}
+	w := NewWorld(r.Seed, r.Params, r.Float)
+	mon := NewMonitor(w)
+	prev := w.snapshot()
+	for i, op := range r.Ops {
+		ok, cur := w.step(op)
+		n := len(mon.fails)
+		mon.Check(prop, op, ok, prev, cur)
+		fmt.Printf("%3d %-60s accepted=%v pool=%d batches=%d calls=%d ext=%d\n", i, coqOp(op), ok, len(cur.Pool), len(cur.Batches), len(cur.Calls), cur.Ext)
+		for _, f := range mon.fails[n:] {
+			fmt.Printf("    MONITOR %s: %s\n", f.sig, f.what)
+		}
+		prev = cur
+	}
+	if len(mon.fails) > 0 {
+		os.Exit(1)
+	}
 }
